@@ -33,6 +33,9 @@ def spell_event(pp, tid, row, rnd, full):
                   "mono": fix(row["mono"]) if row["mono"] is not None else [0, 0],
                   "hasComp": bool(row.get("comp")), "comp": row.get("comp") or []},
           "spellings": sp, "mono": [], "avg": [], "comp": [], "pep": []}
+    o0, c0 = call(pp.mod_comp, sp[-1] if db == "xlmod" else ("UNIMOD:" if db == "unimod" else "MOD:") + row["id"])
+    ev["compFirstOk"] = o0 == "ret"
+    ev["compFirst"] = comp8(c0) if o0 == "ret" else []
     for s in sp:
         ev["mono"].append(res(*call(pp.mod_mass, s, True), fix))
         ev["avg"].append(res(*call(pp.mod_mass, s, False), fix))
